@@ -134,6 +134,14 @@ def iterDigits : Val → R (List Val)
   | .list xs => .ok xs
   | _ => .error (.unmodelled "iterating a function value")
 
+/-- explicit two-argument vectorisation: a number against a list pairs the number with every item; otherwise the
+    items (digits) of the first argument are paired with the whole second one -/
+def vecPairs (a b : Val) : R (List (Val × Val)) :=
+  match a, b with
+  | .int _, .list ys => .ok (ys.map (fun y => (a, y)))
+  | .list xs, _ => .ok (xs.map (fun x => (x, b)))
+  | a, _ => do let xs ← iterDigits a; .ok (xs.map (fun x => (x, b)))
+
 mutual
 /-- does the value contain a function (or `None`) anywhere?  Printing such a value calls the function on the
     live stack (finding F31) — outside the closed core -/
@@ -688,17 +696,11 @@ def execMon (cfg : Cfg) : Nat → Nat → Nat → Int → RSt → R (Sig × RSt)
             let (ys, σ2) ← lazyErr (mapFn cfg n (.fn id) xs σ1)
             .ok (.normal, σ2.push (.list ys))
         | [a, b] => do
-            let xs ← (match a, b with
-              | .list xs, _ => .ok xs
-              | _, .list _ => .ok []
-              | a, _ => iterDigits a)
-            match a, b with
-            | .int _, .list ys => do
-                let (zs, σ2) ← lazyErr (mapFn2 cfg n (.fn id) (ys.map (fun y => (a, y))) σ1)
-                .ok (.normal, σ2.push (.list zs))
-            | _, _ => do
-                let (zs, σ2) ← lazyErr (mapFn2 cfg n (.fn id) (xs.map (fun x => (x, b))) σ1)
-                .ok (.normal, σ2.push (.list zs))
+            -- a number against a list pairs the number with every item; otherwise the items (digits) of the first
+            -- argument are paired with the whole second one
+            let pairs ← vecPairs a b
+            let (zs, σ2) ← lazyErr (mapFn2 cfg n (.fn id) pairs σ1)
+            .ok (.normal, σ2.push (.list zs))
         | [] => .error (.raised "TypeError")
         | _ => .error (.unmodelled "vectorise with three arguments")
     else if m = 38 then   -- `&` apply to the register
